@@ -502,6 +502,12 @@ def rule_r7(ctx) -> List[R.Inst]:
         forwarding_insts(ctx, "C05.R7", BMSMAP + ".write", ("_write_notes",))
 
 
+def rule_dep(ctx):
+    """obligations inherited from shared code reached through the call graph (sa/props/deps.py)"""
+    from .deps import dep_insts
+    return dep_insts(ctx, "C05", ["reamber.bms.BMSMap.BMSMap.write"], skip_groups=())
+
+
 SPECS = [
     RuleSpec("C05.R1", rule_r1, 3, "A1", "tempo ids: header #BPMxx and channel-08 objects number the same list identically (base 36, 2 chars)"),
     RuleSpec("C05.R2", rule_r2, 1, "A7", "column->channel map is the inversion of the caller's layout"),
@@ -510,6 +516,7 @@ SPECS = [
     RuleSpec("C05.R5", rule_r5, 9, "A9", "line shapes: '#mmmcc:' note lines, 00 empty slots, '#KEY value' header lines"),
     RuleSpec("C05.R7", rule_r7, 2, "A8", "write_file / write forward the channel layout and sample default they accept"),
     RuleSpec("C05.R6", rule_r6, 6, "A7", "writer timing map from every tempo point; slot = numerator * slots / (denominator * beats-per-measure)"),
+    RuleSpec("C05.D", rule_dep, 1, "M0", "rules of the shared code (timing engine, list classes, stacker) that the operations of this property reach"),
 ]
 
 META = dict(
